@@ -176,9 +176,14 @@ class Exec:
     def truth(self, st, v):
         k = v.ty.kind
         if k == 'list':
-            return Length(self.listval(st, v.t)) > 0
+            return z3.And(v.t != NONE, Length(self.listval(st, v.t)) > 0)
         if k == 'dict':
-            return dict_nonempty(self.dictval(st, v.t))
+            return z3.And(v.t != NONE, dict_nonempty(self.dictval(st, v.t)))
+        if k == 'obj' and self.proc.locals.get('$containers'):
+            o = v.t
+            return z3.If(is_dict(o), dict_nonempty(self.dictval(st, o)),
+                         z3.If(is_list(o), Length(self.listval(st, o)) > 0,
+                               z3.If(is_seq(o), Length(unbox_seq(o)) > 0, truthy(o))))
         return truth(v)
 
     def coerce(self, v, ty, st=None):
@@ -188,6 +193,8 @@ class Exec:
         k, vk = ty.kind, v.ty.kind
         if k == 'obj':
             return V(OBJ, box(v))
+        if vk == 'obj' and k == 'seq' and ty.args[0].kind == 'obj' and st is not None:
+            return V(ty, z3.If(is_seq(v.t), unbox_seq(v.t), self.listval(st, v.t)))
         if vk == 'obj':
             return unbox(ty, v.t)
         if k == 'seq' and vk == 'tup':
@@ -326,6 +333,8 @@ class _Expr:
     def getattr_(self, node, st, recv, attr):
         attr_m = self.mangle(attr)
         dyn = self.proc.dynattr.get(attr_m) or DYNATTR.get(attr_m)
+        if recv.ty.kind == 'dict' and attr == 'get':
+            return [(st, V(Ty('bound_get'), recv))]
         if recv.ty.kind not in ('obj', 'list', 'dict'):
             raise Unsupported(node, 'attribute %s of %r' % (attr, recv.ty))
         if dyn is not None:
@@ -682,6 +691,8 @@ class _Calls:
             hits = self.reg.by_simple_name(f.id)
             if len(hits) == 1 and f.id not in st.env:
                 return self.call_contract(node, st, hits[0])
+            if f.id in st.env and st.env[f.id].ty.kind == 'bound_get':
+                return self.dm_get(node, st, st.env[f.id].t)
             if f.id in st.env and st.env[f.id].ty.kind == 'bound':
                 callee, recv = st.env[f.id].t
                 return self.call_contract(node, st, callee, recv=recv)
@@ -716,6 +727,10 @@ class _Calls:
             return self.sm_index(node, st, recv)
         if k == 'name':
             return [(st, self.name_method(node, st, recv, meth))]
+        if k == 'obj' and meth in ('get',) and self.proc.locals.get('$containers'):
+            self.oblige(st, 'receiver-is-dict', is_dict(recv.t), 'safety', node)
+            st.assume(is_dict(recv.t))
+            return self.dm_get(node, st, V(DICT, recv.t))
         if k == 'obj':
             text = ast.unparse(node.func)
             if text in self.proc.opaque_calls or ('.' + meth) in self.proc.opaque_calls:
@@ -1365,7 +1380,7 @@ class _Stmts:
                 if any(p is None for p in parts):
                     return None
                 return V(TUP(*[p.ty for p in parts]), tuple(parts))
-            if va.ty.kind in ('localfn', 'exc', 'enum', 'zip', 'items', 'bound'):
+            if va.ty.kind in ('localfn', 'exc', 'enum', 'zip', 'items', 'bound', 'bound_get'):
                 return va if va.t is vb.t else None
             return va if va.t.eq(vb.t) else V(va.ty, z3.If(t, va.t, vb.t))
         try:
@@ -1917,13 +1932,14 @@ class _Dicts:
                 src = self.dictval(s, v.t)
             elif v.ty.kind == 'items':
                 src = v.t
+            elif v.ty.kind == 'obj' and self.proc.locals.get('$containers'):
+                self.oblige(s, 'update-argument-is-dict', is_dict(v.t), 'safety', node)
+                s.assume(is_dict(v.t))
+                src = self.dictval(s, v.t)
             else:
                 raise Unsupported(node, 'update(%r)' % (v.ty,))
             old = self.dictval(s, recv.t)
-            m = fresh('upd', ObjMap)
-            k = z3.Const('up_k', Obj)
-            s.assume(z3.ForAll([k], z3.Select(m, k) == z3.If(z3.Select(src, k) != ABSENT, z3.Select(src, k),
-                                                               z3.Select(old, k)), patterns=[z3.Select(m, k)]))
+            m = dict_update(old, src)
             self.set_dictval(s, recv.t, m)
             out.append((s, VNONE))
         return out
